@@ -274,7 +274,9 @@ def construct_case(chk, rng, mode=None):
 def tri_case(chk, rng):
     a, b, c, d = rng.sample(CODES, 4)
     orient = rng.choice(["mul-ab-bc", "mul-bc-ab", "div-ab-ac", "div-ac-bc",
-                         "noshare-mul", "noshare-div", "self-inverse"])
+                         "noshare-mul", "noshare-div", "self-inverse",
+                         "wrongshare-mul-units", "wrongshare-mul-terms",
+                         "wrongshare-div-chain"])
     if orient == "mul-ab-bc":
         p1, p2, op, want = (a, b), (b, c), "*", (a, c)
     elif orient == "mul-bc-ab":
@@ -283,6 +285,13 @@ def tri_case(chk, rng):
         p1, p2, op, want = (a, b), (a, c), "/", (c, b)
     elif orient == "div-ac-bc":          # same term currency
         p1, p2, op, want = (a, c), (b, c), "/", (a, b)
+    elif orient == "wrongshare-mul-units":
+        # a currency is shared, but not the way the operation needs it
+        p1, p2, op, want = (a, b), (a, c), "*", None
+    elif orient == "wrongshare-mul-terms":
+        p1, p2, op, want = (a, c), (b, c), "*", None
+    elif orient == "wrongshare-div-chain":
+        p1, p2, op, want = (a, b), (b, c), "/", None
     elif orient == "noshare-mul":
         p1, p2, op, want = (a, b), (c, d), "*", None
     elif orient == "noshare-div":
